@@ -147,6 +147,14 @@ def run(tier, seed):
         shutil.rmtree(d, ignore_errors=True)
 
 
+def hand_behaviours():
+    """seeded/ledger_leads.ndjson: one behaviour (JSON array of events) per line, replayed in the worlds of goal configuration S"""
+    sp = os.path.join(vlib.VERIF, "seeded", "ledger_leads.ndjson")
+    if not os.path.exists(sp):
+        return []
+    return [json.dumps(json.loads(x), separators=(",", ":")) for x in open(sp) if x.strip() and not x.startswith("#")]
+
+
 def _run(tier, seed, harness, d):
     res = {"family": "ledger", "mc": [], "tags": [], "samples": [], "tag_universe": TAG_UNIVERSE,
            "assumptions": ["entry points driven at keeper level on a CacheContext of a full ExocoreApp (ctx-mode)",
@@ -240,6 +248,9 @@ def _run(tier, seed, harness, d):
         res["goal_runs"] = []
         for cfg, hcfgs, found, st in goals:
             behs = sorted({b for bs in found.values() for b in sorted(bs)[:2]})
+            # hand-shaped histories of the same world that no goal predicate singles out (seeded/ledger_leads.ndjson)
+            if cfg == "MC_Ledger_goal_S.cfg":
+                behs = sorted(set(behs) | set(hand_behaviours()))
             # the validator operator o1 carries its genesis self-stake in the real world (the bounded model
             # starts from empty pools): replay every goal behaviour also with o1 and o2 exchanged, so that the
             # goal's pool states are reached on the operator that starts empty
